@@ -1,6 +1,6 @@
 (* C20 — a terminal abort always surfaces as an error identifying its result code.  Statements only. *)
 From Zvt Require Import Base Length Cp437 Encoding Codec Lookup Client ClientProps SpecCheck.
-From Zvt Require Import Sequence SeqLookup EnumProps ClientLog.
+From Zvt Require Import Sequence SeqLookup EnumProps CanonClass ClientLog.
 From Zvt.gen Require Tables.
 From Zvt.spec Require Spec.
 Open Scope N_scope.
@@ -92,6 +92,38 @@ Theorem C20_call_on_serialised_replies : forall (A B : Type) cfg (h : A -> N -> 
   (length xs < fuel)%nat ->
   fst (consume fuel cfg (start_retry q T) w acc h fin) = run_handler h fin acc (map x_item xs).
 Proof. exact @call_on_serialised_replies. Qed.
+
+(* non-vacuity of the end-to-end theorem on the shipped tables: a partial reversal answered by an intermediate status and a completion
+   (their bytes are whatever the model serialises, not pinned here), followed by two foreign bytes *)
+Definition ex_q := seq_of "zvt::sequences::PartialReversal" [6; 37; 0].
+Definition ex_b0 : bytes := match nth_error (q_replies ex_q) 0 with Some (_, c) => match canon_cmd c (VRec [VInt 5; VSome (VInt 0)]) with Some b => b | None => [] end | None => [] end.
+Definition ex_b4 : bytes := match nth_error (q_replies ex_q) 4 with Some (_, c) => match canon_cmd c (VRec [VNone; VNone; VNone; VNone]) with Some b => b | None => [] end | None => [] end.
+Definition ex_xs : list (N * value * bytes) := [(0, VRec [VInt 5; VSome (VInt 0)], ex_b0); (4, VRec [VNone; VNone; VNone; VNone], ex_b4)].
+Definition ex_w : world := {| w_conns := [{| k_queue := []; k_close := true; k_buf := [128; 0; 0] ++ concat (map x_bytes ex_xs) ++ [9; 9] |}];
+                             w_scripts := []; w_cur := Some 0; w_now := 7; w_log := [] |}.
+Definition ex_cfg : config := {| c_serial := []; c_terminal_id := []; c_currency := 978; c_amount := 1; c_read_card_timeout := 15; c_password := 0; c_max := 1 |}.
+Example C20_ex_end_to_end : forall final, q_mode ex_q = Loop final ->
+  fst (consume LOOPFUEL ex_cfg (start_retry ex_q TIMEOUT) ex_w None (h_commit 5 1) (fun a => ROk a)) =
+  run_handler (h_commit 5 1) (fun a => ROk a) None (map x_item ex_xs).
+Proof.
+  intros final Hm.
+  apply (call_on_serialised_replies ex_cfg (h_commit 5 1) (fun a => ROk a) ex_q TIMEOUT 0 ex_xs [9; 9] LOOPFUEL ex_w None final Hm).
+  - reflexivity.
+  - unfold valid_id. cbn. lia.
+  - split; reflexivity.
+  - reflexivity.
+  - vm_compute. reflexivity.
+  - repeat constructor.
+    + eexists. eexists. split; [vm_compute; reflexivity|]. split; [vm_compute; reflexivity|]. split; [vm_compute; reflexivity|]. split; [vm_compute; lia|vm_compute; reflexivity].
+    + eexists. eexists. split; [vm_compute; reflexivity|]. split; [vm_compute; reflexivity|]. split; [vm_compute; reflexivity|]. split; [vm_compute; lia|vm_compute; reflexivity].
+  - discriminate.
+  - intros pre x post E. destruct pre as [|a [|b' [|c' pre]]]; cbn in E.
+    + injection E as <- <-. cbn. vm_compute in Hm. injection Hm as <-. reflexivity.
+    + injection E as _ <- <-. cbn. vm_compute in Hm. injection Hm as <-. reflexivity.
+    + injection E as _ _ E. discriminate.
+    + injection E as _ _ E. discriminate.
+  - unfold LOOPFUEL. cbn. lia.
+Qed.
 
 Print Assumptions C20_call_on_serialised_replies.
 Print Assumptions C20_call_on_buffered_replies.
